@@ -339,7 +339,7 @@ static Plan dkg_generate(uint64_t seed, const Tier &tier)
 		for (int k = 0; k < f; k++)
 		{
 			int z; do { z = (int)g.below(n); } while (used.count(z)); used.insert(z);
-			p.ops.push_back(Op("f_faulty", z, (int64_t)g.below(5), (int64_t)g.below(400), (int64_t)g.below(1 << 16)));
+			p.ops.push_back(Op("f_faulty", z, (int64_t)g.below(7), (int64_t)g.below(400), (int64_t)g.below(1 << 16)));
 		}
 	}
 	return p;
@@ -364,7 +364,7 @@ static RunResult dkg_execute_inner(const Plan &plan, const std::vector<uint64_t>
 		{
 			size_t z = (size_t)plan.ops[i].arg(0) % W.n;
 			if (W.faulty[z] || nf >= W.trbc) continue;
-			W.faulty[z] = 1 + (int)(plan.ops[i].arg(1) % 5); nf++;
+			W.faulty[z] = 1 + (int)(plan.ops[i].arg(1) % 7); nf++;
 			crash_after[z] = plan.ops[i].arg(2); bseed[z] = plan.ops[i].arg(3);
 			W.out[z].honest = false; W.out[z].fmode = W.faulty[z] - 1;
 			W.res.cnt[std::string("fault.faulty_party_mode") + std::to_string(W.faulty[z] - 1)]++;
@@ -376,7 +376,17 @@ static RunResult dkg_execute_inner(const Plan &plan, const std::vector<uint64_t>
 		for (size_t z = 0; z < W.n; z++)
 			if (W.faulty[z] == 3 || W.faulty[z] == 5)
 				crash_after[z] = (int64_t)((*clean_counts)[z] * (uint64_t)(crash_after[z] % 400) / 400);
-	std::vector<uint64_t> all_sent(W.n, 0);
+		for (size_t z = 0; clean_counts && z < W.n; z++)
+			if (W.faulty[z] == 7)
+			{
+				uint64_t nb = (clean_counts->size() >= 2 * W.n) ? (*clean_counts)[W.n + z] : 0; // own broadcasts of the clean run (per recipient)
+				if (nb == 0) crash_after[z] = -1;
+				else if ((crash_after[z] % 3) == 0) crash_after[z] = (int64_t)(nb - 1 - (uint64_t)(crash_after[z] / 3) % std::min<uint64_t>(nb, 4)); // one of the last four
+				else crash_after[z] = (int64_t)((uint64_t)crash_after[z] % nb);
+			}
+	std::vector<uint64_t> all_sent(2 * W.n, 0); // [0,n): messages sent; [n,2n): own broadcasts (r-send tuples to one recipient)
+	std::vector<std::vector<uint64_t> > own_bc(W.n, std::vector<uint64_t>(W.n, 0)), first_uc(W.n, std::vector<uint64_t>(W.n, 0));
+	std::vector<std::vector<uint64_t> > *obp = &own_bc, *fup = &first_uc;
 	// timing discipline: drift caused by f faulty parties stays below the broadcast time-out
 	if ((int64_t)W.Tb <= 3 * (int64_t)nf * (int64_t)W.Tu + 10) W.Tb = 3 * nf * W.Tu + 30;
 	W.unet.reset(new Net(&W.S, W.n, true, 1)); W.bnet.reset(new Net(&W.S, W.n, true, 2));
@@ -389,7 +399,7 @@ static RunResult dkg_execute_inner(const Plan &plan, const std::vector<uint64_t>
 		{ W.unet->extra_lat[slow][j] = 200; W.bnet->extra_lat[slow][j] = 200; W.unet->extra_lat[j][slow] = 150; W.bnet->extra_lat[j][slow] = 150; W.res.cnt["fault.slow_node"] = 1; }
 	// Byzantine behaviour on the links of faulty parties
 	World *Wp = &W;
-	auto filt = [Wp, crash_after, bseed](Net *N, size_t src, size_t dst, const Unit &u, std::vector<Unit> &out)
+	auto filt = [Wp, &crash_after, bseed, obp, fup](Net *N, size_t src, size_t dst, const Unit &u, std::vector<Unit> &out)
 	{
 		World &W = *Wp;
 		int fm = W.faulty[src] - 1;
@@ -405,6 +415,30 @@ static RunResult dkg_execute_inner(const Plan &plan, const std::vector<uint64_t>
 			else if (v.ints.size() == 5 && v.ints[3] == "1" && v.ints[1] == std::to_string(src)) { Z x; mpz_set_str(x, v.ints[4].c_str(), 16); mpz_add(x, x, W.G->q); v.ints[4] = zs(x); changed = true; }
 			if (changed) W.res.cnt["fault.out_of_range_value"]++;
 			out.push_back(v); return;
+		}
+		if (fm == 5)
+		{
+			// a wrong private value in the first message to exactly m recipients (m = 1 .. t+1), everything else
+			// honest: the number of complaints sits at the disqualification threshold
+			if (N == W.unet.get() && !u.ints.empty())
+			{
+				size_t m = 1 + (size_t)(bseed[src] % (int64_t)(W.t + 1)), rank = 0;
+				for (size_t q = 0; q < W.n; q++) if (q != src && derive((uint64_t)bseed[src], q) < derive((uint64_t)bseed[src], dst)) rank++;
+				if (dst != src && rank < m && (*fup)[src][dst]++ == 0)
+				{ Unit v = u; Z x; mpz_set_str(x, v.ints[0].c_str(), 16); mpz_add_ui(x, x, 1); v.ints[0] = zs(x); W.res.cnt["fault.wrong_share_to_m_recipients"]++; out.push_back(v); return; }
+			}
+			out.push_back(u); return;
+		}
+		if (fm == 6)
+		{
+			// exactly one own broadcast, at a position taken from the clean run, carries 0 (or 1) instead of its value
+			if (N == W.bnet.get() && u.ints.size() == 5 && u.ints[3] == "1" && u.ints[1] == std::to_string(src))
+			{
+				uint64_t idx = (*obp)[src][dst]++;
+				if ((int64_t)idx == crash_after[src])
+				{ Unit v = u; v.ints[4] = (bseed[src] & 1) ? "1" : "0"; if (dst == (src + 1) % W.n || true) W.res.cnt["fault.own_broadcast_zeroed"]++; out.push_back(v); return; }
+			}
+			out.push_back(u); return;
 		}
 		uint64_t c = W.sendctr[src]++;
 		if (fm == 1) { W.res.cnt["fault.silent_drop"]++; return; }                 // never says anything
@@ -432,6 +466,7 @@ static RunResult dkg_execute_inner(const Plan &plan, const std::vector<uint64_t>
 	{
 		bool tr = getenv("TMCGSIM_TRACE") != NULL;
 		W.bnet->tap = [asp, Wp, tr](size_t src, size_t dst, const Unit &u){ (*asp)[src]++;
+			if (u.ints.size() == 5 && u.ints[3] == "1" && u.ints[1] == std::to_string(src) && dst == (src + 1) % Wp->n) (*asp)[Wp->n + src]++;
 			if (tr && u.ints.size() != 5) printf("BNET odd unit %zu->%zu size %zu at %lld ms\n", src, dst, u.ints.size(), (long long)Wp->S.now_ms); };
 	}
 	// messages to sign: 0, 1, q-1, q, random
@@ -548,6 +583,32 @@ static RunResult dkg_execute_inner(const Plan &plan, const std::vector<uint64_t>
 						if (p0.v_i[j] != pa.v_i[j]) { W.violate("C15", "verification_keys_differ", "v_" + std::to_string(j) + " differs between honest parties"); break; }
 			}
 		}
+		// coin flip with a party whose links replace exactly one of its own broadcasts by 0 or 1 (it runs the honest
+		// code and believes in its own value): as long as no honest party complained about it in the sharing
+		// phase it stays qualified, its committed value belongs to the coin, and the honest parties' coin must be
+		// the one this party computes itself - a wrong opening has to be corrected by reconstruction
+		if (W.res.ok() && W.proto == PR_FLIP)
+			for (size_t z = 0; z < W.n && W.res.ok(); z++)
+			{
+				if (W.faulty[z] != 7 || !W.out[z].finished || W.out[z].rets.size() < 2 || W.out[z].rets[1] != 1) continue;
+				std::string pat = "complaint against P_" + std::to_string(z) + "\n"; bool early = false, late = false;
+				for (size_t a = 0; a < H.size() && !early; a++)
+				{
+					const std::string &lg = W.out[H[a]].errlog; size_t pos = 0;
+					while ((pos = lg.find(pat, pos)) != std::string::npos)
+					{
+						size_t ls = lg.rfind('\n', pos); ls = (ls == std::string::npos) ? 0 : ls + 1;
+						std::string line = lg.substr(ls, pos - ls);
+						if (line.find(": receiving a_i failed") != std::string::npos || line.find(": bad a_i received") != std::string::npos || line.find(": receiving hata_i failed") != std::string::npos ||
+							line.find(": bad hata_i received") != std::string::npos || line.find(": checking a_i resp. hata_i failed") != std::string::npos) late = true; else early = true;
+						pos += pat.size();
+					}
+				}
+				if (early) { W.res.cnt["probe.flip_zeroed_party_disqualified"]++; continue; }
+				W.res.cnt[late ? "probe.flip_zeroed_opening_reconstructed" : "probe.flip_zeroed_broadcast_harmless"]++;
+				if (W.out[z].coin != W.out[H[0]].coin)
+					W.violate("C17", "coin_ignores_committed_value", "party " + std::to_string(z) + " stayed qualified and computes another coin than the honest parties after one of its broadcasts was replaced by " + std::string(late ? "a wrong opening" : "0 or 1"));
+			}
 		// shares match the verification keys and interpolate to the secret behind the public key
 		if (W.res.ok() && (W.proto == PR_GJKR || W.proto == PR_CGJKR_DKG || W.proto == PR_DSS))
 		{
@@ -742,7 +803,7 @@ static RunResult dkg_execute(const Plan &plan)
 {
 	bool need = false;
 	for (size_t i = 0; i < plan.ops.size(); i++)
-		if (plan.ops[i].kind == "f_faulty" && ((plan.ops[i].arg(1) % 5) == 2 || (plan.ops[i].arg(1) % 5) == 4)) need = true;
+		if (plan.ops[i].kind == "f_faulty" && ((plan.ops[i].arg(1) % 7) == 2 || (plan.ops[i].arg(1) % 7) == 4 || (plan.ops[i].arg(1) % 7) == 6)) need = true;
 	if (!need) return dkg_execute_inner(plan, NULL, NULL);
 	std::vector<uint64_t> counts;
 	dkg_execute_inner(plan, NULL, &counts);
